@@ -19,6 +19,7 @@ SMALL = ["", "a", "b", "a b", " a"]
 SWITCHES = [
     {"col_runs": True}, {"row_runs": True}, {"all_spaces_as_s": True}, {"explicit_c": True}, {"paragraphs": True}, {"span_at": 1, "spans": "head"}, {"span_at": 2, "spans": "tail"},
     {"empty_as_p": True}, {"encoding": "UTF-16"}, {"filler": True}, {"span_range": [1, 5]}, {"span_range": [0, 4], "span_nested": True}, {"annotations": True}, {"pretty": True},
+    {"span_range": [0, 9], "link": True},
 ]
 STRUCTURED = [
     [["a", "a", "a", "b"], ["a", "a", "a", "b"], ["b", "", "", ""]],
@@ -214,6 +215,25 @@ def fault_case(case, part):
     if outcome != "DataFormatError":
         what = case.get("text", "") or case.get("what", "")
         part.fail("fault:%s%s|%s" % (kind, (":" + what) if what else "", "read-without-error" if outcome == "rows" else outcome), case, "DataFormatError", detail)
+        return
+    # the same source through the validating reader, in the modes that go on after a rejected row: a source that cannot be read is no rejected row
+    import cutplace
+
+    errors = m["errors"]
+    for mode in ("continue", "yield"):
+        cid = harness.make_cid([["D", "Format", "ODS"], ["D", "Sheet", str(sheet)], ["F", "a", "", "X"], ["F", "b", "", "X"], ["F", "c", "", "X"]])
+        part.transitions += 1
+        part.validated += 1
+        try:
+            items = list(cutplace.rows(cid, path, on_error=mode))
+            observed = "read-without-error:%d-items" % len(items)
+        except errors.DataFormatError:
+            observed = "DataFormatError"
+        except Exception as error:
+            observed = type(error).__name__
+        if observed != "DataFormatError":
+            what = case.get("text", "") or case.get("what", "")
+            part.fail("fault:%s%s|reader-on-error-%s|%s" % (kind, (":" + what) if what else "", mode, observed.split(":")[0]), dict(case, mode=mode), "DataFormatError", observed)
 
 
 def work(item):
